@@ -15,6 +15,7 @@ Reading guide
 -/
 import EPV.Lemmas.NodePath
 import EPV.Lemmas.NodePathEtree
+import EPV.Lemmas.NodePathRefs
 namespace EPV.C14
 open EPV.NodePath
 
@@ -41,6 +42,22 @@ theorem path_injective (top : Node) (r₁ r₂ : Ref) (steps : List Step) (hw : 
   have e₂ := path_selects_self top r₂ steps hw h₂
   rw [e₁] at e₂
   exact List.head_eq_of_cons_eq e₂
+
+/-- The document-order enumeration used to number nodes (node, its namespace nodes, its
+attributes, its children, recursively) lists exactly the nodes of the tree, each once. -/
+theorem all_refs_exact (top : Node) : (∀ r, r ∈ allRefs top ↔ Valid top r) ∧ (allRefs top).Nodup :=
+  ⟨mem_allRefs_iff top, allRefs_nodup top⟩
+
+/-- The paths of all nodes of a tree are pairwise distinct. -/
+theorem paths_pairwise_distinct (top : Node) (hw : top.wf = true) :
+    ((allRefs top).map (pathOf top)).Nodup := by
+  rw [List.Nodup, List.pairwise_map]
+  refine List.Pairwise.imp_of_mem ?_ (allRefs_nodup top)
+  intro a b ha _ hne heq
+  have hva := (path_defined_iff_valid top a).2 ((mem_allRefs_iff top a).1 ha)
+  cases hpa : pathOf top a with
+  | none => rw [hpa] at hva; simp at hva
+  | some st => exact hne (path_injective top a b st hw hpa (by rw [← heq]; exact hpa))
 
 /-- the hypotheses are satisfiable on a non-trivial tree (test on literals):
 `<r xmlns:p="u" a="1"><?x?>t<a/><?y?><!----><p:a/>t<?x?><a/></r>`, second `<?x?>` -/
@@ -101,6 +118,13 @@ theorem etree_paths_agree (e : Node) (ip : List Nat) (steps : List Step)
   cases hd : descend e rest with
   | none => rw [hd] at hs; simp at hs
   | some n => simp only [pathOf, pathOfWith, h2, hd]
+
+/-- membership in `etreeIterPaths` is satisfiable on a non-trivial tree, and the agreement is
+visible there (test on literals): `<r><?x?><a/><?y?><a/><?x?></r>` -/
+example :
+    let e := Node.elem ⟨"", "r"⟩ [] [] [.pi "x", .elem ⟨"", "a"⟩ [] [] [], .pi "y", .elem ⟨"", "a"⟩ [] [] [], .pi "x"]
+    ([4], [Step.pi "x" 2]) ∈ etreeIterPaths e ∧ pathOf e ⟨[4], .self⟩ = some [.pi "x" 2] ∧
+    ([3], [Step.child ⟨"", "a"⟩ 2]) ∈ etreeIterPaths e ∧ pathOf e ⟨[3], .self⟩ = some [.child ⟨"", "a"⟩ 2] := by decide
 
 /-- `etree_iter_paths` reaches every element, comment and processing instruction of the tree
 (text is not an ElementTree node). -/
